@@ -28,7 +28,7 @@ CFG = {
     "rule": "quick: random agent sessions (add candidates, start, ticks, injected STUN (4 classes x 2 methods x username/integrity/transaction/"
             "source variants), data, restart, close) compared with the model after every operation; thorough: more seeds and longer "
             "sessions. Distinct = distinct (operation, output) lines; non-trivial = the operation was executed (not bad-op / ended).",
-    "translated": ["canHandleInbound", "responseSymmetric"],
+    "translated": ["canHandleInbound", "responseSymmetric", "netAddrToAddrPort", "portFitsInUint16", "toAddrPortKey", "candidateBase.handleInboundPacket (STUN path)"],
     "trusted_base": ["pion/stun decoding and HMAC-SHA1 are modelled as perfect (integrity verifies iff the key equals the expected password)",
                      "STUN attributes after MESSAGE-INTEGRITY and attribute byte order are outside the abstract message"],
     "assumptions": ["step-level no-op statements assume the quiescence invariant Q (started -> not closed -> forcePending = false), "
